@@ -271,9 +271,41 @@ func distCase(cs *fw.Case) {
 		}
 		logPdfs(in.Dist, in, t)
 		logPdfs(in.Dist, in, t)
+		// LogCdf / Cdf where the family has them
+		type cdfS interface {
+			LogCdf(ad.Scalar, ad.ConstScalar) error
+			Cdf(ad.Scalar, ad.ConstScalar) error
+		}
+		type cdfV interface {
+			LogCdf(ad.Scalar, ad.Vector) error
+			Cdf(ad.Scalar, ad.Vector) error
+		}
+		for _, pr := range in.Probes {
+			x, ok := pr.(ad.ConstScalar)
+			if !ok {
+				continue
+			}
+			if c, ok := in.Dist.(cdfS); ok {
+				fw.Call(func() { c.LogCdf(ad.NewScalar(t, 0), x); c.Cdf(ad.NewScalar(t, 0), x) })
+				cs.Cover("input.logcdf:" + in.Family)
+			}
+		}
+		if c, ok := in.Dist.(cdfV); ok {
+			xv := ad.NullDenseVector(t, len(in.Probes))
+			for i, pr := range in.Probes {
+				if x, ok := pr.(ad.ConstScalar); ok {
+					xv.At(i).SetFloat64(x.GetFloat64())
+				}
+			}
+			o := &operand{Name: "x(LogCdf)", Obj: xv}
+			o.snap()
+			ops = append(ops, o)
+			fw.Call(func() { c.LogCdf(ad.NewScalar(t, 0), xv); c.Cdf(ad.NewScalar(t, 0), xv) })
+			cs.Cover("input.logcdf:" + in.Family)
+		}
 		for _, o := range ops {
 			if d := o.changed(); d != "" {
-				cs.Violation(sig("input.logpdf", routine, in.Variant, "arg="+o.Name, "modified"), fmt.Sprintf("evaluating LogPdf changed %s: %s", o.Name, d), w)
+				cs.Violation(sig("input.logpdf", routine, in.Variant, "arg="+o.Name, "modified"), fmt.Sprintf("evaluating LogPdf / LogCdf changed %s: %s", o.Name, d), w)
 				return
 			}
 		}
